@@ -433,6 +433,27 @@ def run(rep: vlib.Reporter, tier: str, rng: random.Random, fs: List[List[Optiona
     not_rej = set(rej_l)                                             # model verdict = Passed
     fixed = set(flags("attach_fixed", "chk_fixed", bad_model)) if bad_model else set()
     fixed = set(bad_model) - fixed                                   # chk_fixed TRUE = tolerated (flags returns the FALSE ones)
+    def kinds(sp: dict) -> List[str]:
+        """informational only (coverage counters): which documented contradictions involve an attached link"""
+        out = set()
+        for i, j in itertools.permutations(sp["links"], 2):
+            if i["via"] == "global" and j["via"] == "global":
+                continue
+            same = all(i[k_] == j[k_] for k_ in ("jt", "l", "r", "li", "ri"))
+            if same:
+                continue
+            if i["l"] == j["r"] and i["r"] == j["l"] and i["jt"] not in ("APPEND", "UNION"):
+                out.add("double_join")
+            if i["l"] == j["l"] and i["r"] == j["r"] and i["jt"] != j["jt"]:
+                out.add("join_type_conflict")
+            if i["jt"] == "RIGHT" and i["l"] in (j["l"], j["r"]):
+                out.add("right_join_constraint")
+        return sorted(out)
+
+    kf_kinds: Dict[str, int] = {}
+    for i in set(bad_judge) & in_kf:
+        for k_ in kinds(specs[i]):
+            kf_kinds[k_] = kf_kinds.get(k_, 0) + 1
     rep.count(len(specs))
     by_oc = {k: sum(1 for o in obs if o["oc"] == k) for k in (0, 1, 2, 3)}
     rep.add("attach", {
@@ -448,6 +469,7 @@ def run(rep: vlib.Reporter, tier: str, rng: random.Random, fs: List[List[Optiona
         "links_used_gt0": sum(1 for o in obs if o["used"]),
         "known_finding_domain_cases": len(in_kf),
         "known_finding_domain_not_rejected_by_any_stage": len(set(bad_judge) & in_kf),
+        "known_finding_accepted_sets_by_contradiction_with_an_attached_link": kf_kinds,
         "model_disagreements": len(bad_model), "judge_failures_outside_domain": len(set(bad_judge) - in_kf),
         "later_stage_exceptions": sorted({o["exc"][:60] for o in obs if o["oc"] == 2 and o["exc"]})[:6]})
     for s, o in zip(specs, obs):
